@@ -372,7 +372,8 @@ def run_dataset(case, ctx):
             # the same (the statement quantifies over finite streams of any
             # size as well as infinite ones)
             opts["repeat"] = False
-            k = min(case["k"], max(1, (s - 1) * eps))
+            n_sel = min(s, case["shards_k"]) if case.get("shards_k") else s
+            k = min(case["k"], max(1, n_sel * eps))
             case = dict(case, k=k)
         if case.get("shards_k"):
             opts["shards"] = case["shards_k"]
